@@ -10,6 +10,8 @@ solver into {IAC, LF, other} so that wire lengths are concrete per path; the gro
 writeSequence calls, the cut between the two calls and the split index of the wire are symbolic ints
 turned into one path per value.
 """
+import operator as _operator
+
 from vlib import api, lbytes, lift
 from vlib.api import H, cover
 from vlib.lift import b, t
@@ -39,7 +41,50 @@ EXPLANATION = "lifted real telnet sender + receiver on symbolic text; byte class
 
 L = lift.lift("twisted.conch.telnet", names=None)
 
+
+def _lb_replace(self, old, new, *count):
+    """bytes.replace as a character scan: CrossHair's str.replace on a partly symbolic str builds a z3
+    disjunction over all offsets per occurrence; the scan compares concrete code points natively.
+    Same results (lbytes.selftest() runs on the patched class via this module's selftest())."""
+    o, nw = lbytes._s(old), lbytes._s(new)
+    if count or len(o) == 0:
+        return _orig_replace(self, old, new, *count)
+    s = self.s
+    n = len(s)
+    if not lbytes._is_conc(n):
+        n = _operator.index(n)
+    m = len(o)
+    out = ""
+    i = 0
+    while i < n:
+        j = 0
+        while j < m and i + j < n and s[i + j] == o[j]:
+            j += 1
+        if j == m:
+            out = out + nw
+            i += m
+        else:
+            out = out + s[i]
+            i += 1
+    return self._new(out)
+
+
+_orig_replace = lbytes._LBase.replace
+if api.MODE != "real":
+    lbytes._LBase.replace = _lb_replace
+
 IAC = "\xff"
+
+
+def _fix(s):
+    """the same text rebuilt from its characters, so that its length is a plain int (see props/c16.py)"""
+    n = len(s)
+    if not lbytes._is_conc(n):
+        n = _operator.index(n)
+    out = ""
+    for i in range(n):
+        out = out + s[i]
+    return out
 
 
 def _split_cases(n, split):
@@ -179,7 +224,7 @@ def transparent(text: str, mode: int, cut: int, split: int) -> bool:
     pre: 0 <= split <= 2 * len(text)
     post: _
     """
-    text = _classes(text)
+    text = _classes(_fix(text))
     m = _split_cases(4, mode)
     c = _split_cases(len(text), cut)
     wire = _send(text, m, c)
@@ -233,6 +278,7 @@ def wire_recv(w: str, split: int) -> bool:
     pre: 0 <= split <= len(w)
     post: _
     """
+    w = _fix(w)
     k = _split_cases(len(w), split)
     r1, e1 = _receive(w, k)
     r0, e0 = _receive(w, 0)
